@@ -100,12 +100,18 @@ LimitMenu == { [s EXCEPT !.limit = n] : s \in {PlainKV,
                                                Agg(<<CountStar>>, <<>>, NoE, NoH, FALSE, NoLimit, "none"),
                                                Agg(<<KeyK, CountStar>>, <<K>>, NoE, HAgg(CountStar, ">=", IntV(2)), FALSE, NoLimit, "none"),
                                                Agg(<<KeyK, SumV>>, <<K>>, NoE, [h |-> "keynull", e |-> K, neg |-> TRUE], FALSE, NoLimit, "none"),
-                                               Agg(<<CountStar>>, <<K>>, NoE, NoH, TRUE, NoLimit, "none")}, n \in 0..3 }
+                                               Agg(<<CountStar>>, <<K>>, NoE, NoH, TRUE, NoLimit, "none"),
+                                               Agg(<<KeyK, [a |-> "percentile", e |-> V, pn |-> 1, pd |-> 2, as |-> "p50", wrap |-> NoE]>>, <<K>>, NoE, NoH, FALSE, NoLimit, "none"),
+                                               Agg(<<KeyK, CountV>>, <<K>>, NoE, NoH, FALSE, NoLimit, "none")}, n \in 0..3 }
 LimitJoinMenu == { [s EXCEPT !.limit = n] : s \in {Star(NoE, FALSE, NoLimit, "inner"), Star(NoE, FALSE, NoLimit, "outer"),
-                                                   Sel(<<P(W, "")>>, NoE, TRUE, NoLimit, "inner")}, n \in 0..4 }
+                                                   Sel(<<P(W, "")>>, NoE, TRUE, NoLimit, "inner"),
+                                                   Sel(<<P(K, ""), P(W, "")>>, CmpE(">", W, Zero), FALSE, NoLimit, "inner"),
+                                                   Sel(<<P(K, ""), P(W, "")>>, CmpE(">", W, Zero), FALSE, NoLimit, "outer")}, n \in 0..4 }
 
 \* C04: every aggregate, alone, in both positions relative to the key, in pairs, without GROUP BY, with WHERE / HAVING / wrapper
 Comma == <<44>>
+\* STRING_AGG over a text that is NULL on some rows of a group (NULL first, then text)
+SaCase == [a |-> "string_agg", e |-> CaseE(<<<<CmpE(">", V, Lit(IntV(0))), Lit(TextV(<<112>>))>>>>, Lit(Null)), delim |-> <<44>>, as |-> "sc", wrap |-> NoE]
 AllAggs == {
   CountStar, CountV, ItC("count_distinct", "v", "d"), SumV, MinOfV, MaxOfV, ItE("avg", V, "a"), MinK, MaxK,
   ItE("bool_and", VPos, "ba"), ItE("bool_or", CmpE("=", K, Lit(A)), "bo"),
@@ -114,10 +120,11 @@ AllAggs == {
   [a |-> "percentile", e |-> V, pn |-> 1, pd |-> 2, as |-> "p50", wrap |-> NoE],
   [a |-> "percentile", e |-> V, pn |-> 1, pd |-> 1, as |-> "p100", wrap |-> NoE],
   [a |-> "percentile", e |-> V, pn |-> 0, pd |-> 1, as |-> "p0", wrap |-> NoE],
-  ItE("variance", V, "var"), ItE("stddev", V, "sd")
+  ItE("variance", V, "var"), ItE("stddev", V, "sd"),
+  SaCase
 }
 SomeAggs == {CountStar, CountV, SumV, MinK, [a |-> "string_agg", e |-> K, delim |-> Comma, as |-> "sa", wrap |-> NoE],
-             [a |-> "percentile", e |-> V, pn |-> 1, pd |-> 2, as |-> "p50", wrap |-> NoE], ItE("bool_and", VPos, "ba")}
+             [a |-> "percentile", e |-> V, pn |-> 1, pd |-> 2, as |-> "p50", wrap |-> NoE], ItE("bool_and", VPos, "ba"), SaCase}
 AggMenu ==
   {Agg(<<KeyK, x>>, <<K>>, NoE, NoH, FALSE, NoLimit, "none") : x \in AllAggs}
   \cup {Agg(<<x, KeyK>>, <<K>>, NoE, NoH, FALSE, NoLimit, "none") : x \in SomeAggs}
@@ -131,6 +138,8 @@ AggMenu ==
         Agg(<<[CountStar EXCEPT !.wrap = Arith("+", Col("$value"), One)], ItE("key", V, "v")>>, <<V>>, NoE, NoH, FALSE, NoLimit, "none"),
         Agg(<<KeyK, CountStar, [CountV EXCEPT !.wrap = Arith("+", Col("$value"), One)],
               [ItC("count_distinct", "v", "d") EXCEPT !.wrap = Arith("-", Lit(IntV(100)), Col("$value"))], [MinOfV EXCEPT !.wrap = Arith("*", Col("$value"), Lit(IntV(2)))]>>, <<K>>, NoE, NoH, FALSE, NoLimit, "none"),
+        Agg(<<KeyK, [SumV EXCEPT !.wrap = Arith("+", One, Arith("*", Col("$value"), Lit(IntV(2))))], [MaxOfV EXCEPT !.wrap = Arith("*", Lit(IntV(2)), Arith("+", Col("$value"), One))],
+              [CountStar EXCEPT !.wrap = Arith("-", Lit(IntV(100)), Arith("*", Col("$value"), Lit(IntV(10))))]>>, <<K>>, NoE, NoH, FALSE, NoLimit, "none"),
         Agg(<<KeyK, ItE("key", V, "v"), CountStar>>, <<K, V>>, NoE, NoH, FALSE, NoLimit, "none"),
         Agg(<<ItE("key", V, "v"), CountStar>>, <<K>>, NoE, NoH, FALSE, NoLimit, "none")}       \* key expression not in GROUP BY: error
 
@@ -200,12 +209,31 @@ PairMenu ==
   \cup {Sel(<<P(Call("array_unique", <<Call("array", <<Lit(p[1]), Lit(p[2]), Lit(p[1])>>)>>), "u")>>, NoE, FALSE, NoLimit, "none") : p \in {x \in Pairs : x[1].t # "arr"}}
 LinesPair == {KV(A, IntV(1)), KV(A, IntV(2))}
 
+\* C15: COUNT(DISTINCT) over many distinct values with recurrences (long inputs, simulation), and aggregates over REALs closer than f64::EPSILON
+LinesDistinct == {KV(A, IntV(i)) : i \in 1..10} \cup {KV(B, IntV(3)), KV(A, Null)}
+DistinctCountMenu == {Agg(<<ItC("count_distinct", "v", "d"), CountStar>>, <<>>, NoE, NoH, FALSE, NoLimit, "none"),
+                      Agg(<<KeyK, ItC("count_distinct", "v", "d")>>, <<K>>, NoE, NoH, FALSE, NoLimit, "none")}
+RealPairs == {<<RealV(1, 4), Q25n>>, <<Q25n, RealV(1, 4)>>, <<RealV(0, 1), NZero>>, <<NZero, RealV(0, 1)>>, <<RealV(1, 2), RealV(3, 2)>>, <<NaN, PInf>>, <<PInf, NaN>>}
+RealOrderMenu ==
+  {Agg(<<ItE("min", Pick(p[1], p[2]), "lo"), ItE("max", Pick(p[1], p[2]), "hi"), CountStar>>, <<>>, NoE, NoH, FALSE, NoLimit, "none") : p \in RealPairs}
+  \cup {Agg(<<ItE("key", Pick(p[1], p[2]), "x"), CountStar>>, <<Pick(p[1], p[2])>>, NoE, NoH, FALSE, NoLimit, "none") : p \in RealPairs}
+  \cup {Agg(<<[a |-> "percentile", e |-> Pick(p[1], p[2]), pn |-> 1, pd |-> 2, as |-> "p50", wrap |-> NoE]>>, <<>>, NoE, NoH, FALSE, NoLimit, "none") : p \in RealPairs}
+LinesPick == {KV(A, IntV(1)), KV(A, IntV(2)), KV(B, IntV(1)), KV(B, IntV(2))}
+
 \* ---- input menus ----------------------------------------------------------
 Lines4 == {KV(A, IntV(1)), KV(A, IntV(2)), KV(B, IntV(1)), KV(Null, IntV(1)), KV(A, Null), KV(Null, Null), Garbage}
 LinesAgg == {KV(A, IntV(1)), KV(A, IntV(2)), KV(B, IntV(-1)), KV(B, Null), KV(Null, IntV(0)), KV(A, Null), Near}
+\* a richer alphabet for the simulation runs: multi-character keys (lexicographic vs length order), integers whose numeric and textual
+\* order differ (9 < 10 < 100), negative values, the 64-bit extremes
+AB == TextV(<<97, 98>>)
+BA == TextV(<<98, 97>>)
+AA == TextV(<<97, 97>>)
+LinesRich == {KV(A, I31(0)), KV(A, I31(5)), KV(A, IntV(1)), KV(A, IntV(10)), KV(AB, IntV(9)), KV(B, IntV(100)), KV(BA, IntV(-1)), KV(AA, IntV(2)), KV(B, IntV(9)), KV(AB, Null), KV(Null, IntV(10)),
+              KV(Null, IntV(0)), KV(A, MaxV(0)), KV(B, MinV(0)), KV(Null, Null), Garbage}
 LinesNoise == {KV(A, IntV(1)), KV(B, IntV(2)), KV(A, Null), KV(Null, IntV(3)), KV(Null, Null), Garbage, Empty, Near}
 LongJoin == [i \in 1..34 |-> IF i % 2 = 0 THEN KV(A, IntV(i)) ELSE KV(B, IntV(i))]
-JoinSetsLong == {LongJoin}
+LongJoinNoise == [i \in 1..34 |-> IF i \in {11, 21, 31} THEN Garbage ELSE IF i % 2 = 0 THEN KV(A, IntV(i)) ELSE KV(B, IntV(i))]   \* non-rows exactly where the flag is sampled
+JoinSetsLong == {LongJoin, LongJoinNoise}
 Lines3 == {KV(A, IntV(1)), KV(B, IntV(2)), KV(Null, IntV(0)), KV(A, Null), Garbage}
 LinesJ == {KV(A, IntV(1)), KV(B, IntV(2)), KV(Null, IntV(1))}
 JoinSets == {<<>>, <<KV(A, IntV(5))>>, <<KV(A, IntV(0)), KV(A, IntV(5))>>, <<KV(B, IntV(5)), KV(A, IntV(5)), KV(A, IntV(6))>>, <<KV(A, IntV(5)), KV(A, IntV(0)), KV(Null, IntV(9))>>, <<KV(B, IntV(1)), Garbage, KV(A, IntV(3))>>}
